@@ -1,4 +1,8 @@
 import PySMT.Proofs.C18Pareto
+import PySMT.Proofs.C18Term
+import PySMT.Proofs.C18ParetoTerm
+import PySMT.Proofs.C18Spec
+import PySMT.Proofs.C18Examples
 /-!
 # C18 — Optimisation returns the true optimum and restores the solver
 
@@ -190,9 +194,9 @@ theorem lexi_opt_partial (hO : OracleSpec A obj o) (mx : Mixin) (strat : Strat) 
     Pareto-optimal and is yielded with its own cost vector; no cost vector is yielded twice; every
     Pareto-optimal cost vector is yielded.  So the yielded cost vectors are exactly the Pareto front,
     each once.
-    Missing (hence `_partial`): termination -- the statement is about runs of the model that finish
-    (`.done`); the routine does not terminate when the front or a chain of improvements is infinite
-    (possible for unbounded Int objectives); `supported = false` (F24b); the empty goal list. -/
+    The statement is about runs that finish (`.done`); `pareto_terminates_partial` shows that they do
+    whenever the feasible models have finitely many cost vectors (the routine cannot terminate on an
+    infinite front).  Missing (hence `_partial`): `supported = false` (F24b); the empty goal list. -/
 theorem pareto_front_partial (hO : OracleSpec A obj o) (mx : Mixin) (goals : List (Nat × Goal)) (fuel : Nat)
     (hsup : ∀ p ∈ goals, p.2.supported = true) (hne : goals ≠ []) (s s' : Solver M)
     (res : List (M × List Int)) (h : pareto o obj mx goals fuel s = (.done res, s')) :
@@ -224,6 +228,61 @@ theorem pareto_front_partial (hO : OracleSpec A obj o) (mx : Mixin) (goals : Lis
       simp only [accOf, List.map_map, List.mem_map]
       exact ⟨p, hp, by simp [hc, hpe]⟩
 
+/-- `boxed_optimize` returns (from some amount of fuel on the model is finished) when the optimum
+    of every goal is attained.  Missing: `supported = false` (F24b). -/
+theorem boxed_terminates_partial (hO : OracleSpec A obj o) (mx : Mixin) (strat : Strat)
+    (goals : List (Nat × Goal)) (hok : GoalsOk A obj goals) (s : Solver M)
+    (hatt : ∀ p ∈ goals, (∃ m, Feas A obj s.stack [] m) →
+      OptimumAttained (sense p.2.dir) (Feas A obj s.stack []) (obj p.1)) :
+    ∃ N, ∀ fuel, fuel ≥ N → ∃ res, (boxed o obj mx strat fuel goals s).1 = .done res := by
+  obtain ⟨N, hN, hst⟩ := boxed_stable hO mx strat goals s hok (fun p hp => attained_of (hatt p hp))
+  refine ⟨N, fun fuel hge => ?_⟩
+  have h1 : (boxed o obj mx strat fuel goals s).1 ≠ .fuel := by
+    have := hst fuel hge
+    simp only at this hN
+    rw [this]; exact hN
+  rcases boxed_spec hO mx strat fuel goals s hok with hf | ⟨res, hres, _⟩
+  · exact absurd hf h1
+  · exact ⟨res, hres⟩
+
+/-- `lexicographic_optimize` returns when the optimum of every goal is attained on every set of
+    models that fixes the values of the earlier goals (always the case for finite domains).
+    Missing: `supported = false` (F24b); the empty goal list. -/
+theorem lexi_terminates_partial (hO : OracleSpec A obj o) (mx : Mixin) (strat : Strat)
+    (goals : List (Nat × Goal)) (hne : goals ≠ []) (hok : GoalsOk A obj goals) (s : Solver M)
+    (hatt : ∀ cd, ∀ p ∈ goals, (∃ m, Feas A obj s.stack cd m) →
+      OptimumAttained (sense p.2.dir) (Feas A obj s.stack cd) (obj p.1)) :
+    ∃ N, ∀ fuel, fuel ≥ N → ∃ res, (lexicographic o obj mx strat fuel goals s).1 = .done res := by
+  obtain ⟨N, hN, hst⟩ := lexLoop_stable hO mx strat s.stack goals [] none [] s.push rfl hok
+    (fun cd p hp => attained_of (hatt cd p hp))
+  refine ⟨N, fun fuel hge => ?_⟩
+  have h1 : (lexicographic o obj mx strat fuel goals s).1 ≠ .fuel := by
+    have := hst fuel hge
+    simp only at this hN
+    unfold lexicographic
+    rw [this]; exact hN
+  rcases lexi_spec hO mx strat fuel goals hne hok s with hf | ⟨res, hres, _⟩
+  · exact absurd hf h1
+  · exact ⟨res, hres⟩
+
+/-- `pareto_optimize` terminates when the feasible models have finitely many cost vectors (all in
+    the list `L`; e.g. bit-vector or range-bounded objectives): with `L.length + 2` units of fuel or
+    more the model has finished.  Missing: `supported = false` (F24b); the empty goal list. -/
+theorem pareto_terminates_partial (hO : OracleSpec A obj o) (mx : Mixin) (goals : List (Nat × Goal))
+    (hsup : ∀ p ∈ goals, p.2.supported = true) (hne : goals ≠ []) (s : Solver M) (L : List (List Int))
+    (hL : ∀ m, Feas A obj s.stack [] m → costs (specGoals obj goals) m ∈ L)
+    (fuel : Nat) (hfuel : fuel ≥ L.length + 2) :
+    ∃ res, (pareto o obj mx goals fuel s).1 = .done res := by
+  have h1 := pareto_terminates hO mx goals hsup hne s L hL fuel hfuel
+  rcases pareto_spec hO mx goals fuel hsup hne s with hf | ⟨found, hres, _⟩
+  · exact absurd hf h1
+  · exact ⟨_, hres⟩
+
+/-- the S-oracle `spec opt` of the driver (optimum of an explicit list of feasible objective
+    values) returns an element of the list that no element improves on -/
+theorem spec_opt_query_correct (d : Sense) (vs : List Int) (v : Int) (h : listOpt d vs = some v) :
+    v ∈ vs ∧ ∀ w ∈ vs, d.le v w := listOpt_spec d vs v h
+
 /-! ## What happens outside `supported` (finding F24b) -/
 
 /-- a goal whose logic is not in the comparison table: `KeyError` after `_setup`, one level stays
@@ -245,22 +304,6 @@ theorem search_restores_full_fails : ¬ search_restores_full_statement := by
   simp [optimize, Solver.push] at this
 
 /-! ## Non-vacuity: the hypotheses are satisfiable and the conclusions are about real runs -/
-
-/-- a concrete oracle over the models `0 … 5` of `x` with objective `x` -/
-def exOracle (obj : Nat → Int → Int) : Oracle Int := fun _ cs =>
-  ([0, 1, 2, 3, 4, 5] : List Int).find? (fun m => cs.all (fun c => c.holds obj m))
-
-theorem exOracle_spec (obj : Nat → Int → Int) :
-    OracleSpec (fun m : Int => m ∈ ([0, 1, 2, 3, 4, 5] : List Int)) obj (exOracle obj) := by
-  intro n cs
-  refine ⟨?_, ?_⟩
-  · intro m hm
-    have h1 := List.find?_some hm
-    have h2 := List.mem_of_find?_eq_some hm
-    exact ⟨h2, fun c hc => (List.all_eq_true.1 h1) c hc⟩
-  · intro hn m hm hall
-    have := List.find?_eq_none.1 hn m hm
-    exact this (List.all_eq_true.2 hall)
 
 example : (match (optimize (exOracle (fun _ m => m)) (fun _ m => m) .sua .binary ⟨.max, .int, true⟩ 0 [] 20 {}).1 with
     | .done (some (m, c)) => m == 5 && c == 5 | _ => false) = true := by decide
